@@ -710,8 +710,9 @@ func runSrv(ts []string) string {
 				o = "to"
 			}
 			shutdownResult = o
-			if o == "nil" || o == "ctx" {
-				// everything that was idle has been closed by Shutdown; a successful Shutdown leaves nothing
+			if o == "nil" || o == "ctx" || o == "err" {
+				// everything that was idle has been closed by Shutdown; a Shutdown that did not give up leaves nothing
+				// ("err": a repeated call reports the error of closing the closed listener after its sweep)
 				for kk := range tracked {
 					if tracked[kk] {
 						if isBusy(kk) && o == "ctx" {
